@@ -189,6 +189,9 @@ func plainUser(w *wreq) bool {
 		if strings.HasPrefix(p.key, internalPrefix) || len(p.deltas) > 0 {
 			return false
 		}
+		if !c15PutRepresentable(p) { // index declarations the key layout cannot represent are refused (O-45, c15_leader.go)
+			return false
+		}
 	}
 	for _, d := range w.dels {
 		if strings.HasPrefix(d.key, internalPrefix) {
